@@ -491,12 +491,17 @@ func (c *compiler) evalIdentifier(node *ast.Identifier) (interface{}, error) {
 }
 
 func (c *compiler) evalInfixExpression(node *ast.InfixExpression) (interface{}, error) {
+	// an unknown identifier counts as nil, but only as an operand of
+	// '==', '!=' and the logical operators; every other error fails
+	toleratesUnknown := node.Operator == "==" || node.Operator == "!=" ||
+		node.Operator == "||" || node.Operator == "&&"
+
 	lres, err := c.evalExpression(node.Left)
-	if err != nil &&
-		node.Operator != "==" && node.Operator != "!=" &&
-		node.Operator != "||" && node.Operator != "&&" {
-		return nil, err
-	} // nil lres is acceptable only for '==', '!=', and logical operators
+	if err != nil {
+		if _, ok := err.(*ErrUnknownIdentifier); !ok || !toleratesUnknown {
+			return nil, err
+		}
+	}
 
 	switch { // fast return
 	case node.Operator == "&&" && !c.isTruthy(lres):
@@ -506,11 +511,11 @@ func (c *compiler) evalInfixExpression(node *ast.InfixExpression) (interface{}, 
 	}
 
 	rres, err := c.evalExpression(node.Right)
-	if err != nil &&
-		node.Operator != "==" && node.Operator != "!=" &&
-		node.Operator != "||" && node.Operator != "&&" {
-		return nil, err
-	} // nil rres is acceptable only for '==', '!=', and logical operators
+	if err != nil {
+		if _, ok := err.(*ErrUnknownIdentifier); !ok || !toleratesUnknown {
+			return nil, err
+		}
+	}
 
 	switch node.Operator {
 	case "&&", "||":
